@@ -150,18 +150,7 @@ def run(ctx) -> None:
     # different output names, so a name table taken from one item (the first successful one) misses outputs that
     # first appear later — in each iteration of the per-item loop that is not a failed item, the translator is
     # applied to that item's values
-    coll = db.func("runners._shared.helpers.collect_as_lists")
-    ccfg_ = ctx.cfg(coll)
-    loops_ = [n for n in ccfg_.nodes if n.kind == "for" and isinstance(n.ast.target, ast.Name) and any(isinstance(x, ast.Attribute) and x.attr == "values" and isinstance(x.value, ast.Name) and x.value.id == n.ast.target.id for x in ast.walk(n.ast))]
-    if not loops_:
-        raise AnalysisError("collect_as_lists: per-item loop not recognised")
-    lp_ = loops_[0]
-    item = lp_.ast.target.id
-    translators = [n for n in ccfg_.nodes if contains(lp_.ast, n.ast) and any(isinstance(c.func, ast.Attribute) and c.func.attr == "map_outputs_from_original" and c.args and src(c.args[0]).startswith(item + ".") for c in ccfg_.calls_at(n))] if True else []
-    failed = {src(a): False for t in ccfg_.nodes if t.kind == "test" and t.ast is not None and contains(lp_.ast, t.ast) for a in test_atoms(t.ast) if "FAILED" in src(a) and isinstance(a, ast.Compare) and isinstance(a.ops[0], (ast.Eq, ast.Is))}
-    failed.update({src(a): True for t in ccfg_.nodes if t.kind == "test" and t.ast is not None and contains(lp_.ast, t.ast) for a in test_atoms(t.ast) if "FAILED" in src(a) and isinstance(a, ast.Compare) and isinstance(a.ops[0], (ast.NotEq, ast.IsNot))})
-    ok_t = bool(translators) and must_reach_in_iteration(ccfg_, lp_, translators, failed)
-    rep.add("C06.R3", f"{coll.qname}:every-item-translated", ok_t, coll.loc(), "every successful item's values pass through the node's output translator" if ok_t else "an item's values can be collected without passing through node.map_outputs_from_original(<that item's values>) (e.g. a name table built once from the first item): an output that first appears in a later item is not renamed — it is dropped (None for every item) or lands under the wrong name after a swap")
+    check_every_item_translated(ctx, "C06.R3")
 
     # ---- R9: the node cache addresses arguments by the function's own parameter names --------------------------
     # definition_hash ignores renames and the identity carries no input wiring, so two differently wired clones of one
@@ -214,6 +203,24 @@ def check_map_lists_follow_renames(ctx, rule: str) -> None:
                     rewritten = bool(calls)
         rep.add(rule, f"GraphNode.with_inputs:{a}", rewritten, wi.loc(), f"{a} is rewritten with the mapping applied to the inputs" if rewritten else f"{a} is validated against the inputs in map_over but not rewritten in with_inputs: after a rename it names inputs that no longer exist")
 
+
+
+def check_every_item_translated(ctx, rule: str) -> None:
+    """In the collector of a mapping node, every successful item's values pass through the node's own output translator
+    (which inverts the rename history over the node's *current* output names only)."""
+    db, rep = ctx.db, ctx.rep
+    coll = db.func("runners._shared.helpers.collect_as_lists")
+    ccfg_ = ctx.cfg(coll)
+    loops_ = [n for n in ccfg_.nodes if n.kind == "for" and isinstance(n.ast.target, ast.Name) and any(isinstance(x, ast.Attribute) and x.attr == "values" and isinstance(x.value, ast.Name) and x.value.id == n.ast.target.id for x in ast.walk(n.ast))]
+    if not loops_:
+        raise AnalysisError("collect_as_lists: per-item loop not recognised")
+    lp_ = loops_[0]
+    item = lp_.ast.target.id
+    translators = [n for n in ccfg_.nodes if contains(lp_.ast, n.ast) and any(isinstance(c.func, ast.Attribute) and c.func.attr == "map_outputs_from_original" and c.args and src(c.args[0]).startswith(item + ".") for c in ccfg_.calls_at(n))] if True else []
+    failed = {src(a): False for t in ccfg_.nodes if t.kind == "test" and t.ast is not None and contains(lp_.ast, t.ast) for a in test_atoms(t.ast) if "FAILED" in src(a) and isinstance(a, ast.Compare) and isinstance(a.ops[0], (ast.Eq, ast.Is))}
+    failed.update({src(a): True for t in ccfg_.nodes if t.kind == "test" and t.ast is not None and contains(lp_.ast, t.ast) for a in test_atoms(t.ast) if "FAILED" in src(a) and isinstance(a, ast.Compare) and isinstance(a.ops[0], (ast.NotEq, ast.IsNot))})
+    ok_t = bool(translators) and must_reach_in_iteration(ccfg_, lp_, translators, failed)
+    rep.add(rule, f"{coll.qname}:every-item-translated", ok_t, coll.loc(), "every successful item's values pass through the node's output translator" if ok_t else "an item's values can be collected without passing through node.map_outputs_from_original(<that item's values>) (e.g. a name table built once from the first item): an output that first appears in a later item is not renamed — it is dropped (None for every item) or lands under the wrong name after a swap")
 
 
 def check_inversions_over_current_names(ctx, rule: str) -> None:
@@ -302,6 +309,37 @@ def check_translators_reach_resolver(ctx, rule: str, only_class: str | None = No
                     rep.ok(rule, f"{m.qname}", m.loc(), "base-class default (no rename support at this level)")
                     continue
             rep.add(rule, f"{m.qname}", ok, m.loc(), f"reaches {target.name}" if ok else f"does not reach {target.name}: this translator resolves renamed names on its own")
+            # ... and the names it hands out are computed *from* the resolver's table: where the translator calls the
+            # resolver itself, every non-trivial result it returns depends on that table (not only its early exit)
+            rv = {t.id for x in walk_local(m.node) if isinstance(x, ast.Assign) and isinstance(x.value, ast.Call) and target.name in call_names(db, x.value, m) for t in x.targets if isinstance(t, ast.Name)}
+            direct = any(target.name in call_names(db, c_, m) for c_ in db.calls_in(m))
+            if ok and (rv or direct):
+                defs_m = db.local_defs(m)
+                loose = None
+                for r in [r for r in walk_local(m.node) if isinstance(r, ast.Return) and r.value is not None]:
+                    if isinstance(r.value, (ast.Name, ast.Constant)) and (not isinstance(r.value, ast.Name) or r.value.id in m.param_names):
+                        continue  # unchanged argument / constant
+                    if isinstance(r.value, ast.Attribute) or (isinstance(r.value, (ast.Dict, ast.List, ast.Tuple, ast.Set)) and not (getattr(r.value, "elts", None) or getattr(r.value, "keys", None))):
+                        continue  # a stored attribute as it is / an empty container: nothing is translated on this exit
+                    if isinstance(r.value, ast.Call) and (dotted(r.value.func) or "") in ("list", "dict", "tuple") and len(r.value.args) == 1 and not any(isinstance(z, ast.Name) and z.id in defs_m for z in ast.walk(r.value.args[0])):
+                        continue  # a plain copy of an attribute / argument (nothing renamed)
+                    names = {z.id for z in ast.walk(r.value) if isinstance(z, ast.Name)}
+                    for _ in range(3):
+                        names |= {z.id for nm in list(names) for d in defs_m.get(nm, []) for z in ast.walk(getattr(d, "value", None) or ast.Constant(0)) if isinstance(z, ast.Name)}
+                        # containers filled in place: what is stored into them, and under which key
+                        for x in walk_local(m.node):
+                            if isinstance(x, (ast.Assign, ast.AugAssign)):
+                                for t in (x.targets if isinstance(x, ast.Assign) else [x.target]):
+                                    if isinstance(t, ast.Subscript) and isinstance(t.value, ast.Name) and t.value.id in names:
+                                        names |= {z.id for z in ast.walk(t.slice) if isinstance(z, ast.Name)} | {z.id for z in ast.walk(x.value) if isinstance(z, ast.Name)}
+                            elif isinstance(x, ast.Call) and isinstance(x.func, ast.Attribute) and isinstance(x.func.value, ast.Name) and x.func.value.id in names and x.func.attr in ("update", "append", "add", "extend", "setdefault"):
+                                names |= {z.id for a_ in x.args for z in ast.walk(a_) if isinstance(z, ast.Name)}
+                    if not (names & rv) and not any(isinstance(z, ast.Call) and target.name in call_names(db, z, m) for nm in names | {""} for d in (defs_m.get(nm, []) if nm else [r]) for z in ast.walk(getattr(d, "value", None) or ast.Constant(0))):
+                        loose = r
+                if loose is not None:
+                    rep.bad(rule, f"{m.qname}:result-from-resolver-table", f"{m.module.rel}:{loose.lineno}", f"'{src(loose)[:70]}' does not depend on the table {target.name} returned: the names are paired some other way (e.g. positionally against a tuple that is not the wrapper's own order) — after a rename the value stays under its old name or lands under a sibling's")
+                else:
+                    rep.ok(rule, f"{m.qname}:result-from-resolver-table", m.loc(), "every translated result is computed from the resolver's table")
 
 
 
